@@ -516,7 +516,7 @@ def check_eig(A4, lam_true=None):
     lam = np.asarray(lam)
     V4 = rt.q_to4(V)
     sc = max(1.0, rt.fro(A4))
-    if np.abs(lam.imag).max() > 1e-9 * sc:
+    if not (np.abs(lam.imag).max() <= 1e-9 * sc):
         return {"what": "eigenvalues are not real", "lam": lam}
     if lam_true is not None and not np.allclose(np.sort(lam.real), np.sort(lam_true), atol=1e-8 * sc):
         return {"what": "eigenvalues differ from the prescribed spectrum", "got": np.sort(lam.real), "want": np.sort(lam_true)}
